@@ -158,13 +158,13 @@ func (g *gen) one(x exchange) {
 	key := fmt.Sprintf("%s|%s|%s|%d|%v", x.Stack, x.Cfg.name(), x.Req.name()+x.Req.AE+x.Req.Range, s.ID, x.Pat)
 	nt := len(s.CE) > 0 || x.Cfg.Auto || x.Req.AE != "" || x.Req.Method == "HEAD"
 	r.Add(hk.Case{Coq: coqCase(x, o), Desc: desc}, key, nt)
-	if g.singles++; g.singles%25 == 0 {
+	if g.singles++; g.singles%g.r.Scale(25, 5) == 0 {
 		g.flushSeq(1)
 	}
 }
 
 func runC14(r *hk.Run) {
-	r.Header = "From ReqV Require Import Model.C14Run."
+	r.Header = "From Coq Require Import Uint63.\nFrom ReqV Require Import Model.C14Run."
 	r.CaseType = "c14_case"
 	r.CheckFn = "c14_check"
 	r.ShardSize = 300
